@@ -334,7 +334,7 @@ func genCase(t *rapid.T) Case {
 	return c
 }
 
-var prop = &ev.Prop[Case]{Sub: "concurrent", Quick: 1600, Thorough: 80000, Gen: genCase, Check: check}
+var prop = &ev.Prop[Case]{Sub: "concurrent", Quick: 4000, Thorough: 80000, Gen: genCase, Check: check}
 
 func TestRegress(t *testing.T) { prop.Regress(t) }
 func TestReplay(t *testing.T) {
